@@ -260,3 +260,49 @@ Section PipelineState.
     | (d, o) :: t => prun plan width t (ptrain plan width d o 0 cs)
     end.
 End PipelineState.
+
+(* ---- pipeline shapes: the wiring around the component nodes ------------------------------ *)
+(* A pipeline is more than its list of nodes: components are wired to each other (edges: consumer, source),
+   one node may be the default, others are reachable under an alias.  Which nodes Pipeline.train visits is
+   generated from the source (`pt_iterates_all_nodes`): every node of the graph, or only those some declared
+   output (default node / alias) is computed from.  A trainable component on a side branch (run by name only,
+   feeding no declared output) is visited only in the first case. *)
+Record pshape := mkShape {
+  sh_nodes : list pnode;
+  sh_edges : list (String.string * String.string);       (* consumer node, source node *)
+  sh_default : option String.string;
+  sh_aliases : list (String.string * String.string)      (* alias, node *)
+}.
+
+Definition sh_outputs (sh : pshape) : list String.string :=
+  (match sh_default sh with Some d => [d] | None => [] end) ++ map snd (sh_aliases sh).
+
+(* backwards closure over the edges; `fuel` rounds, each adds the sources of everything found so far *)
+Fixpoint feeds (fuel : nat) (edges : list (String.string * String.string)) (front : list String.string) : list String.string :=
+  match fuel with
+  | O => front
+  | S k => feeds k edges (front ++ map snd (filter (fun e => mem (fst e) front) edges))
+  end.
+
+Definition on_output_path (sh : pshape) (n : String.string) : bool :=
+  mem n (feeds (length (sh_nodes sh)) (sh_edges sh) (sh_outputs sh)).
+
+Definition visited (all_nodes : bool) (sh : pshape) : list pnode :=
+  if all_nodes then sh_nodes sh else filter (fun n => on_output_path sh (pn_name n)) (sh_nodes sh).
+
+Definition shape_calls (all_nodes : bool) (plan : seed_plan) (width : nat) (retrain : bool) (i : nat) (sh : pshape) : list pcall :=
+  ptrain_calls plan width retrain i (visited all_nodes sh).
+
+Fixpoint count_name (a : String.string) (l : list String.string) : nat :=
+  match l with
+  | [] => 0
+  | b :: t => (if String.eqb a b then 1 else 0) + count_name a t
+  end.
+
+Definition expected_count (n : pnode) : nat := if pn_trainable n then 1 else 0.
+
+(* correspondence: the recorded calls of an instrumented pipeline of that shape, and the per-node counters *)
+Definition agree_shape (all_nodes : bool) (plan_of : rng_kind -> seed_plan) (width : nat) (k : rng_kind) (retrain : bool)
+           (spawned_before : nat) (sh : pshape) (obs : list pcall) : bool :=
+  list_eqb pcall_eqb (shape_calls all_nodes (plan_of k) width retrain (start_index (plan_of k) spawned_before) sh) obs
+  && forallb (fun n => Nat.eqb (count_name (pn_name n) (map pc_name obs)) (expected_count n)) (sh_nodes sh).
